@@ -92,6 +92,10 @@ class KernelEval:
         elif k in ("ForStmt", "WhileStmt"):
             self._loop(st)
         elif k in ("ContinueStmt", "BreakStmt"):
+            if k == "BreakStmt":
+                # a break ends the *later* iterations of the loop too, which a per-point comparison of accesses cannot see:
+                # it is recorded as an effect of this iteration point
+                self.acc.add(("break", self.depth))
             raise _Signal("loop")
         elif k == "ReturnStmt":
             raise _Signal("return")
